@@ -8,6 +8,7 @@ CRLF, exactly entity bytes a..=b; then CRLF "--B--" CRLF.
 -/
 import HttpServeModel.Lemmas.ServeLemmas
 import HttpServeModel.Lemmas.Layout
+import HttpServeModel.Lemmas.EndToEnd
 
 namespace HS
 
@@ -67,5 +68,30 @@ theorem C06_413_only_on_overflow (c : Content) (rs : List (Nat × Nat)) (len : N
     (hrs : ∀ r ∈ rs, r.1 < r.2) (h : prepareMultipart rs len eh = .ok none) :
     U64 ≤ (specLayout c len eh (rs.map toInclusive)).length :=
   prepareMultipart_overflow c rs len eh hrs h
+
+/-- End to end (C03 + C06): for every grammatical range set (any whitespace, leading zeros) with
+at least two satisfiable ranges whose estimate is below the entity length, a GET carrying only
+that Range header is answered either by 413 or by a multipart 206 whose Content-Length is the
+length of the specified layout of exactly the satisfiable ranges in request order, and whose
+body — over any honest streams, however chunked — is that layout byte for byte. -/
+theorem C06_end_to_end (c : Content) (es : List RangeElem) (e : Ent) (now : Nat)
+    (hne : es ≠ []) (hwf : ∀ x ∈ es, x.wf) (hfit : ∀ x ∈ es, x.spec.fits) (hlen : e.len < U64)
+    (h2 : 2 ≤ (satisfiable e.len es).length)
+    (hest : ((satisfiable e.len es).map fun r => 80 + (r.2 + 1 - r.1)).sum < e.len) :
+    ∃ r, serve (rangeOnly .get (some (renderRange es))) e now = .ok r ∧
+      (r.status = 413 ∨
+       (r.status = 206 ∧
+        r.header .contentLength = some (.bytes (dec
+          (specLayout c e.len (specEntityHeaders e.headers) (satisfiable e.len es)).length)) ∧
+        ∀ scripts : List (List Ev), scripts.length = (satisfiable e.len es).length →
+          (∀ i (hi : i < (satisfiable e.len es).length),
+             HonestScript c ((satisfiable e.len es)[i]).1 (((satisfiable e.len es)[i]).2 + 1)
+               (scripts.getD i [])) →
+          ∀ n, (scripts.map List.length).sum + 2 * (satisfiable e.len es).length + 2 ≤ n →
+            ∃ body, BodyS.ofPlan r.plan scripts = .ok body ∧
+              concatData (outs (body.run n)) =
+                specLayout c e.len (specEntityHeaders e.headers) (satisfiable e.len es) ∧
+              PollOut.end_ ∈ outs (body.run n) ∧ ∀ o ∈ outs (body.run n), o.isErr = false)) :=
+  multipart_end_to_end c es e now hne hwf hfit hlen h2 hest
 
 end HS
